@@ -68,7 +68,29 @@ pub fn run(c: &Case, tmp: &std::path::Path) -> Vec<String> {
     }
     let main = dir.join(c.p("main"));
     let mut out = vec![];
-    for l in dump_container(&main, &["idx"], true) {
+    let lines = dump_container(&main, &["idx"], true);
+    if let Some(t) = c.po("mt") {
+        // the contents the single-threaded read met, read again by several threads at once
+        let mut addrs: Vec<(u16, u32)> = vec![];
+        for l in &lines {
+            for tok in l.split(' ') {
+                if let Some((_, rest)) = tok.split_once("=c") {
+                    let a = rest.split('=').next().unwrap_or("");
+                    if let Some((p, i)) = a.split_once(':') {
+                        if let (Ok(p), Ok(i)) = (p.parse(), i.parse()) {
+                            if !addrs.contains(&(p, i)) {
+                                addrs.push((p, i));
+                            }
+                        }
+                    }
+                }
+            }
+        }
+        for l in crate::dump::mt_pass(&main, &addrs, t.parse().unwrap()) {
+            out.push(format!("{} @oracle {}", c.id, l));
+        }
+    }
+    for l in lines {
         out.push(format!("{} {}", c.id, l));
     }
     let _ = std::fs::remove_dir_all(&dir);
